@@ -8,10 +8,16 @@
          match_kmer_selection are uint32 labels ["u32", hi, lo] - KmerIndex!Dom_Label - in the
          calls and in the reported rows)
      {op: "sequence", A, s}            a sequence for the selectors
+     {op: "from_positions", entries: [[kmer, [[ref id, pos], ..]], ..], views, oc, out}
+         KmerTable.from_positions of the listed entries; `out` is what the new table holds
+   `views` (calls match, count, match_sel, from_positions) lists the memory form in which the
+   driver handed an array argument over: {arg, buf, off, shape, st} (ArrayForm.tla; cells are
+   abstract values: k-mer tuples, labels, symbols, booleans).  TLC checks that each view is a
+   legal view that denotes the logged argument; the expected answer is that of the value.
    later events are single calls with their logged outcome and observation.  Every event is
    judged on its own (queries against the logged table content), disagreements are printed as
      <<"MISMATCH", tid, eventIndex, expected outcome, expected value>>. *)
-EXTENDS KmerIndex, KmerSelect, Json, IOUtils, TLC
+EXTENDS KmerIndex, KmerSelect, ArrayForm, Json, IOUtils, TLC
 
 Tr == JsonDeserialize(IOEnv.TRACE_FILE)
 
@@ -26,10 +32,24 @@ LabelsOk(e) ==
   CASE e.op = "table"       -> \A r \in DOMAIN e.refs : Dom_Label(e.refs[r].id)
     [] e.op = "match_table" -> \A r \in DOMAIN e.other : Dom_Label(e.other[r].id)
     [] e.op = "match_sel"   -> \A i \in DOMAIN e.pos : Dom_Label(e.pos[i])
+    [] e.op = "from_positions" -> \A x \in DOMAIN e.entries : \A i \in DOMAIN e.entries[x][2] : Dom_Label(e.entries[x][2][i][1])
     [] OTHER                -> TRUE
+
+\* the arrays the driver laid out in memory denote the logged arguments
+ArgValue(e, name) ==
+  CASE name = "pos" -> e.pos [] name = "kmers" -> e.kmers [] name = "q" -> e.q [] name = "mask" -> e.mask[1]
+ViewsOk(e) ==
+  CASE e.op \in {"match", "count", "match_sel"} ->
+         \A i \in DOMAIN e.views : Dom_View(e.views[i]) /\ Value1(e.views[i]) = ArgValue(e, e.views[i].arg)
+    [] e.op = "from_positions" ->
+         /\ Len(e.views) = Len(e.entries)
+         /\ \A i \in DOMAIN e.views : Dom_View(e.views[i]) /\ Value2(e.views[i]) = e.entries[i][2]
+    [] OTHER -> TRUE
 
 Expected(e) ==
   CASE ~LabelsOk(e)         -> RR("OutOfDomain", {})
+    [] ~ViewsOk(e)          -> RR("OutOfDomain", {})
+    [] e.op = "from_positions" -> Op_FromPositions(e.entries)
     [] e.op = "table"       -> Op_FromSequences(e.refs, e.sp)
     [] e.op = "match"       -> Op_Match(S.T, e.q, e.mask, e.rule, S.sp)
     [] e.op = "count"       -> Op_Count(S.T, e.kmers)
@@ -51,7 +71,7 @@ KeysConsistent(e) ==
     /\ (e.perm = "none" /\ e.op = "syncmers") => e.sord = Op_CreateKmers(S.s, Continuous(e.s), S.A).out
 
 OutMatches(e, r) ==
-  CASE e.op \in {"table", "match", "lookup", "get_kmers", "match_table", "match_sel"} ->
+  CASE e.op \in {"table", "match", "lookup", "get_kmers", "match_table", "match_sel", "from_positions"} ->
          ToSet(e.out) = r.out /\ NoDupSeq(e.out)
     [] e.op = "count" -> e.out = r.out
     [] OTHER -> e.out.pos = r.out.pos /\ e.out.kmers = r.out.kmers /\ ~e.is_mask
